@@ -52,6 +52,9 @@ type Leaf interface {
 	// match returns true if the leaf matches the segment, values of bind parameters
 	// are stored in the `Params`.
 	match(segment string, params Params, header http.Header) bool
+	// setShortForm sets the leaf that represents the same route without its
+	// optional segment.
+	setShortForm(shortForm Leaf)
 }
 
 // baseLeaf contains common fields for any leaf.
@@ -61,6 +64,7 @@ type baseLeaf struct {
 	segment       *Segment       // The segment that the leaf is derived from.
 	handler       Handler        // The handler bound to the leaf.
 	headerMatcher *HeaderMatcher // The matcher for header values.
+	shortForm     Leaf           // The leaf of the same route without its optional segment.
 }
 
 func (l *baseLeaf) getParent() Tree {
@@ -73,6 +77,14 @@ func (l *baseLeaf) getSegment() *Segment {
 
 func (l *baseLeaf) SetHeaderMatcher(m *HeaderMatcher) {
 	l.headerMatcher = m
+	// The route is also reachable without its optional segment.
+	if l.shortForm != nil {
+		l.shortForm.SetHeaderMatcher(m)
+	}
+}
+
+func (l *baseLeaf) setShortForm(shortForm Leaf) {
+	l.shortForm = shortForm
 }
 
 func (l *baseLeaf) matchHeader(header http.Header) bool {
